@@ -1,11 +1,11 @@
 from pyvc import runner
-from contracts import fingerprints, codecs
+from contracts import fingerprints, codecs, pubexport
 
 PID = 'C18'
 
 
 def items():
-    return fingerprints.scenarios() + [c for c in codecs.CONTRACTS if PID in c.props]
+    return fingerprints.scenarios() + [c for c in codecs.CONTRACTS if PID in c.props] + [s for s in pubexport.scenarios() if PID in s.props]
 
 
 def run(tier='quick', seed=0, only=None):
